@@ -8,6 +8,7 @@ import (
 	"os/exec"
 	"strings"
 	"sync"
+	"syscall"
 	"time"
 )
 
@@ -43,6 +44,7 @@ func NewSolver(bin string, args ...string) *Solver {
 
 func (s *Solver) start() {
 	cmd := exec.Command(s.bin, s.args...)
+	cmd.SysProcAttr = &syscall.SysProcAttr{Pdeathsig: syscall.SIGKILL}
 	in, _ := cmd.StdinPipe()
 	out, _ := cmd.StdoutPipe()
 	cmd.Stderr = cmd.Stdout
